@@ -127,3 +127,83 @@ def dl_interval_at(labels, x, y, sig, theta, Idiag, tree_code, margin=0.02):
     if not vals:
         vals = [float("nan")]
     return min(vals), max(vals)
+
+
+# ----------------------------------------------------------------------------- trees that are linear in parameter ATOMS (Trees!AtomLin)
+def _subtree_end(labels, p):
+    """index just past the sub-tree starting at position p (0-based) of a prefix label list"""
+    need, q = 1, p
+    while need > 0:
+        need += p1.arity(labels[q]) - 1
+        q += 1
+    return q
+
+
+def atom_description_lengths(labels, roots, x, y, sig, tree_code, margin=0.02):
+    """independent DL interval of a tree that is affine in its parameter atoms (roots: 1-based start positions from TLC).
+    Each atom must depend on exactly one parameter, atoms on distinct parameters, and there must be as many atoms as parameters."""
+    from scipy.optimize import brentq
+    roots = sorted(r - 1 for r in roots)
+    params = sorted({l for l in labels if l.startswith("a") and l[1:].isdigit()}, key=lambda s: int(s[1:]))
+    atoms, outer, pos, j = [], [], 0, 0
+    while pos < len(labels):
+        if pos in roots:
+            end = _subtree_end(labels, pos)
+            sub = labels[pos:end]
+            ps = sorted({l for l in sub if l in params})
+            if len(ps) != 1:
+                raise NotLinear("atom with %d parameters" % len(ps))
+            atoms.append((ps[0], sub))
+            outer.append("a%d" % j)
+            j += 1
+            pos = end
+        else:
+            outer.append(labels[pos])
+            pos += 1
+    if len(atoms) != len(params) or len({a[0] for a in atoms}) != len(atoms):
+        raise NotLinear("atoms and parameters are not in one-to-one correspondence")
+    ft = fit(outer, x, y, sig)                       # closed form in the atom values c
+    k = ft["k"]
+    one = np.array([1.0])
+
+    def g(sub, pname, t):
+        a = [one * 0.0] * 4
+        a[int(pname[1:])] = one * t
+        v, good = p1.tree_values(sub, x=one, a=a)
+        return float(v[0]) if good[0] else float("nan")
+    sols = []
+    for jj, (pname, sub) in enumerate(atoms):
+        target = float(ft["theta"][jj])
+        found = []
+        grid = np.concatenate([-np.logspace(6, -6, 1500), np.logspace(-6, 6, 1500)])
+        vals = np.array([g(sub, pname, t) - target for t in grid])
+        for a_, b_, va, vb in zip(grid[:-1], grid[1:], vals[:-1], vals[1:]):
+            if np.isfinite(va) and np.isfinite(vb) and va * vb < 0 and a_ * b_ > 0:
+                try:
+                    rt = brentq(lambda t: g(sub, pname, t) - target, a_, b_, xtol=1e-14, rtol=1e-13)
+                except Exception:
+                    continue
+                if abs(g(sub, pname, rt) - target) <= 1e-8 * max(1.0, abs(target)):
+                    found.append(rt)
+        if not found:
+            raise NotLinear("atom %s cannot take the value %g" % (sub, target))
+        sols.append((pname, sub, found))
+    import itertools
+    lo, hi, info = float("inf"), -float("inf"), None
+    for combo in itertools.product(*[s[2] for s in sols]):
+        theta = np.zeros(len(params))
+        Idiag = np.zeros(len(params))
+        for jj, ((pname, sub, _), t) in enumerate(zip(sols, combo)):
+            h = 1e-6 * max(abs(t), 1e-6)
+            d = (g(sub, pname, t + h) - g(sub, pname, t - h)) / (2 * h)
+            pi = params.index(pname)
+            theta[pi] = t
+            Idiag[pi] = d * d * ft["I"][jj, jj]
+        if not np.all(np.isfinite(Idiag)) or np.any(Idiag <= 0):
+            raise NotLinear("singular reparametrisation")
+        l_, h_ = dl_interval_at(labels, x, y, sig, theta, Idiag, tree_code, margin)
+        if not (math.isfinite(l_) and math.isfinite(h_)):
+            raise NotLinear("description length not finite")
+        lo, hi = min(lo, l_), max(hi, h_)
+        info = {"nll": ft["nll"], "theta": theta.tolist(), "Idiag": Idiag.tolist(), "atoms": [s[1] for s in sols], "solutions": [len(s[2]) for s in sols]}
+    return lo, hi, info
